@@ -10,7 +10,8 @@ Static clauses decided (necessary conditions of C16): the ordering skeleton of a
          the rows they reference are deleted and inserted after the rows they reference exist).
  PRINC   Entity._save_ saves the principals of a created/modified object (_save_principal_objects_) before the object's own
          statement, and passes the dependency chain down; _save_principal_objects_ recurses only into principals that are
-         still 'created', passing the same chain.
+         still 'created', passing the same chain; (round 8) and into EVERY such principal: with `v is not None` and `v._status_ == 'created'`
+         granted, no further condition (queue position, flags) lets the iteration continue without the recursive save.
  CYCLE   UnresolvableCyclicDependency is raised exactly when the object whose principals are being saved is already on
          the chain (test `<receiver> in dependent_objects`, evaluated before the object is appended); it is not raised
          for principals that are merely referenced (already saved objects stay on the chain and are legitimately
@@ -162,6 +163,30 @@ def run(ctx):
         ok = r.id not in rr and any(dotted(a) == chain for a in c.args)
         ctx.ob('C16-PRINC.recursion-only-into-created-principals', sp, r.ast, ok,
                '' if ok else 'principal is saved recursively without the `_status_ == \'created\'` test or without the dependency chain', node=r.ast)
+        # ... and the converse (round 8): a principal that IS pending creation is always saved first -- with `<pv> is not None` and `<pv>._status_ ==
+        # 'created'` granted, no other condition (its position in the save queue, a flag, ...) lets the iteration go on without the recursive save:
+        # the flush loop has not necessarily reached that principal yet, and the dependent's INSERT would carry a key that does not exist.
+        defs = [n_ for n_ in g.nodes if n_.kind == 'stmt' and isinstance(n_.ast, ast.Assign) and any(norm(t_) == pv for t_ in n_.ast.targets)]
+        def atom2(text, node, pv=pv):
+            if text == pv + "._status_ == 'created'": return True
+            if text == pv + "._status_ != 'created'": return False
+            if text == pv + ' is None': return False
+            if text == pv + ' is not None': return True
+            return None
+        def eo2(x, y, lab):
+            n_ = g.nodes[x]
+            if lab == 'exc': return False
+            if n_.kind != 'test' or lab not in ('T', 'F'): return True
+            v = eval_test(n_.ast, atom2)
+            return v is None or v == (lab == 'T')
+        ok2 = bool(defs)
+        for d_ in defs:
+            succ_ = [y for y, lab in g.succ[d_.id] if lab != 'exc']
+            if r.id in succ_: continue
+            if g.exit.id in g.reach(succ_, avoid=[r], edge_ok=eo2): ok2 = False
+        ctx.ob('C16-PRINC.every-created-principal-is-saved-first', sp, r.ast, ok2,
+               '' if ok2 else 'an iteration of _save_principal_objects_ over a principal whose status is \'created\' can continue without saving it: some further '
+               'condition withholds the recursive _save_, so the dependent row can be inserted before the row it refers to', node=r.ast)
     # ---------------------------------------------------------------- CYCLE
     thr = [n for n in g.nodes if n.kind == 'stmt' and isinstance(n.ast, ast.Expr) and isinstance(n.ast.value, ast.Call)
            and dotted(n.ast.value.func) == 'throw' and n.ast.value.args and dotted(n.ast.value.args[0]) == 'UnresolvableCyclicDependency']
@@ -225,6 +250,7 @@ def run(ctx):
 
 
 MUTANTS = [
+    dict(id='C16-p8', file='pony/orm/core.py', fn='Entity._save_principal_objects_', old="            if val is not None and val._status_ == 'created':", new="            if val is not None and val._status_ == 'created' and val._save_pos_ > obj._save_pos_:", expect='C16-PRINC.every-created-principal-is-saved-first'),
     dict(id='C16-m2m1', file='pony/orm/core.py', fn='SessionCache._calc_modified_m2m', old="                setdata = obj._vals_[attr]\n                if setdata.added:\n                    for obj2 in setdata.added: added.add((obj, obj2))",
          new="                setdata = obj._vals_[attr]\n                if obj._status_ == 'marked_to_delete':\n                    del obj._vals_[attr]\n                    continue\n                if setdata.added:\n                    for obj2 in setdata.added: added.add((obj, obj2))", expect='C16-M2M'),
     dict(id='C16-m2m2', file='pony/orm/core.py', fn='SessionCache._calc_modified_m2m', old="                if setdata.removed:\n                    for obj2 in setdata.removed: removed.add((obj, obj2))", new="                for obj2 in setdata.removed or (): removed.add((obj, obj2))", benign=True),
